@@ -1844,6 +1844,14 @@ class Merge3Merger:
             sequence_matcher=patiencediff.PatienceSequenceMatcher,
         )
         start_marker = b"!START OF MERGE CONFLICT!" + b"I HOPE THIS IS UNIQUE"
+        # The marker only identifies conflict starts if no line of the texts
+        # being merged begins with it: lengthen it until that is true.
+        while any(
+            line.startswith(start_marker)
+            for lines in (base_lines, this_lines, other_lines)
+            for line in lines
+        ):
+            start_marker += b"!"
         base_marker = b"|" * 7 if self.show_base is True else None
 
         def iter_merge3(retval):
